@@ -157,9 +157,9 @@ inductive WState where
   | distribution | operation | conciliation
   deriving DecidableEq, Repr, Inhabited
 
-/-- `_master_next` is reached only by the Master (`_MasterSlaveState.next`); `ConciliationState._master_next` does not
-    call `_WorkingState._master_next` -/
-def handsLost (master : Bool) (w : WState) : Bool := master && decide (w ≠ .conciliation)
+/-- `_master_next` is reached only by the Master (`_MasterSlaveState.next`); the three working states call
+    `_WorkingState._master_next` first (CONCILIATION too since `/repo` 896a4df) -/
+def handsLost (master : Bool) (_w : WState) : Bool := master
 
 /-- `Starter/Stopper.on_instances_invalidation`: a failed process that has a pending request on a lost instance or a
     planned command is removed from the set (`withJob`) -/
